@@ -68,6 +68,9 @@ func narrowOpsOf(fn *ssa.Function) (ops []string, at []ssa.Instruction) {
 					}
 				}
 			}
+			if ts < fs && rangeIndexBelow(cv.X, int64(1)<<uint(min(ts, 62))) {
+				return // the index of a range over a table with few entries fits
+			}
 			if ts < fs {
 				ops = append(ops, fmt.Sprintf("conv:%s->%s", typeShort(cv.X.Type()), typeShort(cv.Type())))
 				at = append(at, ins)
@@ -79,9 +82,9 @@ func narrowOpsOf(fn *ssa.Function) (ops []string, at []ssa.Instruction) {
 			return
 		}
 		switch bo.Op {
-		case token.ADD, token.SUB, token.MUL, token.SHL, token.OR, token.XOR:
+		case token.ADD, token.SUB, token.MUL, token.SHL:
 		default:
-			return
+			return // (| and ^ of two values of a type stay within the type: nothing is lost)
 		}
 		if sz, uns := intSize(bo.Type()); sz >= 32 {
 			// wide enough - except that an unsigned difference wraps at zero
@@ -90,6 +93,12 @@ func narrowOpsOf(fn *ssa.Function) (ops []string, at []ssa.Instruction) {
 				at = append(at, ins)
 			}
 			return
+		}
+		// the counter of `for range n` over a narrow n: the compiler's own increment, which stops at n
+		if phi, isPhi := bo.X.(*ssa.Phi); isPhi && bo.Op == token.ADD && bo.Pos() == token.NoPos && phi.Comment == "rangeint.iter" {
+			if k, isK := constInt(bo.Y); isK && k == 1 {
+				return
+			}
 		}
 		// constant folding leaves no BinOp; an operation on two constants cannot occur here
 		ops = append(ops, fmt.Sprintf("%s:%s", bo.Op, typeShort(bo.Type())))
@@ -101,7 +110,7 @@ func narrowOpsOf(fn *ssa.Function) (ops []string, at []ssa.Instruction) {
 func ruleNarrowArith(pkgs ...string) func(c *Ctx) {
 	return func(c *Ctx) {
 		const R = "W1-NARROW-ARITH"
-		c.Doc(R, "arithmetic (+ - * << | ^) whose result type is narrower than 32 bits, subtraction in an unsigned type and conversions to a narrower integer type occur only at the instances confirmed by reading (per package, operator and type; reasons in narrowAllowed): elsewhere integers are wide enough that the unbounded normal forms are exact, so an accumulator, index or checksum that is narrowed to byte/uint16 or made unsigned is reported")
+		c.Doc(R, "arithmetic (+ - * <<) whose result type is narrower than 32 bits, subtraction in an unsigned type and conversions to a narrower integer type occur only at the instances confirmed by reading (per package, operator and type; reasons in narrowAllowed): elsewhere integers are wide enough that the unbounded normal forms are exact, so an accumulator, index or checksum that is narrowed to byte/uint16 or made unsigned is reported")
 		c.Floor(R, len(pkgs))
 		for _, pk := range pkgs {
 			found := map[string]int{}
@@ -428,4 +437,34 @@ func init() {
 		register(p, ruleColor)
 	}
 	register("C10", rulePDF417TextMachine, rulePDF417Latches)
+}
+
+// rangeIndexBelow: v is the index of a `for i := range x` loop (go/ssa: phi from -1, index = phi+1)
+// whose bound is a constant not above limit - the index then lies in 0..limit-1.
+func rangeIndexBelow(v ssa.Value, limit int64) bool {
+	bo, ok := v.(*ssa.BinOp)
+	if !ok || bo.Op != token.ADD {
+		return false
+	}
+	phi, ok := bo.X.(*ssa.Phi)
+	if !ok || phi.Comment != "rangeindex" {
+		return false
+	}
+	if k, isK := constInt(bo.Y); !isK || k != 1 {
+		return false
+	}
+	refs := bo.Referrers()
+	if refs == nil {
+		return false
+	}
+	for _, r := range *refs {
+		if cmp, isCmp := r.(*ssa.BinOp); isCmp && cmp.Op == token.LSS && cmp.X == ssa.Value(bo) {
+			if k, isK := constInt(cmp.Y); isK && int64(k) <= limit && k >= 0 {
+				if _, isIf := phi.Block().Instrs[len(phi.Block().Instrs)-1].(*ssa.If); isIf && cmp.Block() == phi.Block() {
+					return true
+				}
+			}
+		}
+	}
+	return false
 }
